@@ -235,7 +235,10 @@ class LintedDir:
                         if v_dict.get("fixes", []):
                             # We're changing a violating with fixes, to one without,
                             # so we need to increment the cache value.
-                            self.num_unfixable_lint_errors += 1
+                            # NOTE: Warnings aren't included in the count of
+                            # unfixable errors (see `.add()`), fixable or not.
+                            if not v_dict.get("warning"):
+                                self.num_unfixable_lint_errors += 1
                             v_dict["fixes"] = []
             # Filter the full versions if present.
             for linted_file in self.files:
